@@ -72,6 +72,9 @@ def oracle_listener_sends(case, lines, insts):
 
 
 def run_shard(campaign, shard, nshards, seed, tier):
+    if campaign == 'api':
+        import apiuse
+        return apiuse.run_api('C18', shard, nshards, seed, tier)
     if campaign == 'listener_sends':
         part = Part()
         rng = random.Random('%s/%s/%s' % (seed, campaign, shard))
@@ -197,4 +200,6 @@ def run(ctx):
     run_sharded(ctx, 'C18', 'tap')
     run_sharded(ctx, 'C18', 'garbage')
     run_sharded(ctx, 'C18', 'listener_sends')
-    return RULE, ASSUME
+    run_sharded(ctx, 'C18', 'api', nshards=2)
+    import apiuse
+    return RULE + apiuse.rule_text('C18'), ASSUME
